@@ -204,6 +204,26 @@ pub fn run(ctx: &Ctx) {
     });
   }
   ctx.subspace(&format!("(b) every hour (hh:20:34) of every date of the year windows {:?}: eight characters = year, month, day(+1 at 23h), hour pillars", w), done, nb);
+  // (b') the instants around every Jie of those years: composition must switch exactly at the Jie instant
+  let mut jies: Vec<i64> = Vec::new();
+  for &(ya, yb) in &w {
+    for y in ya..=yb.min(9998) {
+      for i in (1..24).step_by(2) {
+        let t = tm.t[24 * y as usize + i].inst;
+        if t != i64::MIN {
+          jies.push(t);
+        }
+      }
+    }
+  }
+  let done = par_chunks(ctx, 0, jies.len(), 8, |x, y, l| {
+    for k in x..y {
+      for dt in [-1i64, 0, 1, 60, 1800] {
+        check_hour(ctx, &civ, &tm, jies[k] + dt, l);
+      }
+    }
+  });
+  ctx.subspace(&format!("(b') every Jie instant of those years ({}) at -1 s, +0, +1 s, +60 s, +30 min: eight characters switch exactly at the instant", jies.len()), done, jies.len() as u64 * 5);
   // (c) inverse search
   let eras: Vec<(i32, i32)> = if ctx.quick() { vec![(2024, 2024)] } else { vec![(30, 31), (1582, 1583), (2023, 2024), (5000, 5001), (9900, 9901)] };
   let ranges: Vec<(isize, isize)> = if ctx.quick() { vec![(0, 0), (1, 1)] } else { vec![(0, 0), (0, 1), (0, 2), (1, 0), (1, 1), (1, 2), (2, 0), (2, 1), (2, 2)] };
